@@ -25,10 +25,12 @@ def run(rep):
     rep.guard(v3, rep, worlds)
     rep.guard(v4, rep, rel)
     rep.guard(v5, rep, dev)
+    rep.guard(v6, rep, dev)
     import c09, c16
     rep.guard(c09.f4, rep, dev)     # an error raised after the raw active-fiber pointer was switched is reported on another fiber in builds that read the pointer
     rep.guard(c16.g2, rep, dev)     # the paced and the stress collector run at the same point of an allocation (before the new object is registered)
     rep.guard(c01.r1, rep, dev)     # collections happen at different points in the build configurations: an untraced edge shows up as different behaviour between them
+    rep.guard(c02.p10, rep, dev)    # an element read past the current length panics in one configuration and reads stale memory in the other
 
 
 def features_of(snip):
@@ -203,6 +205,29 @@ def v2(rep, w):
                 hit = fields & persistent
                 r.check(not hit, '%s / debug_assert' % f.path, 'a debug_assert! reads %s, which persists across runs of a reused interpreter: '
                         'checked builds panic where optimised builds continue' % sorted(hit), f.loc(s.get('sp')))
+                # the asserted expression is evaluated in checked builds only: it must not do anything (`debug_assert!(stack.pop().is_some())`
+                # pops in one configuration and not in the other)
+                muts = []
+                for b in sorted(arm | {t.get('else', bi)}):
+                    tb = f.blocks[b]['t']
+                    if tb['t'] != 'call':
+                        continue
+                    cn_ = callee_name(tb) or ''
+                    if cn_.startswith(PURE_PREFIX) or 'panicking' in cn_ or 'fmt::' in cn_:
+                        continue
+                    for a in tb['args']:
+                        pl = op_place(a)
+                        if pl is None or pl.get('p'):
+                            continue
+                        for s3 in f.blocks[b]['s']:
+                            if s3.get('d', {}).get('l') == pl['l'] and s3['r'].get('rv') == 'ref' and s3['r'].get('m'):
+                                # a mutable borrow of state that outlives the assertion (reached through an argument), not of a temporary
+                                # such as the iterator an `.all(..)` walks
+                                bp = s3['r']['p']
+                                if '*' in bp.get('p', []) or 1 <= bp['l'] <= f.argc:
+                                    muts.append(cn_.rsplit('::', 1)[-1])
+                r.check(not muts, '%s / debug_assert without side effects' % f.path, 'the expression inside a debug_assert! calls %s on a mutable borrow: the effect happens in checked builds only, '
+                        'so the two configurations run different programs from here on' % sorted(set(muts)), f.loc(s.get('sp')))
                 # a cap on the number of rounds of a loop: `count <= CONST` where count is stepped inside a cycle. How often a loop of the
                 # interpreter goes round is decided by program data (probe chains, element counts), so the checked build panics on inputs
                 # the optimised build handles.
@@ -406,3 +431,51 @@ def short_n(v):
 
 def short(iv):
     return '[%s, %s]' % (short_n(iv[0]), short_n(iv[1]))
+
+
+def v6(rep, w, rid='V6'):
+    """the unsigned sibling of V5: `a.len() - b.len()` on two lengths a program chooses independently underflows whenever the second is
+    the larger one -- the checked build panics ("attempt to subtract with overflow"), the optimised build wraps to a huge count and
+    carries on (a loop to usize::MAX). Such a subtraction has to be dominated by a comparison of the same two quantities."""
+    r = rep.rule(rid, 'a difference of two program-chosen lengths is taken only after the two were compared', floor=0)
+    c = w.yarel
+    reach = w.reach_from({'yarel::vm::Vm::run'})
+    n = 0
+    for p in sorted(reach):
+        f = w.fns[p]
+        if f.crate is not c or f.file.endswith('debug.rs'):
+            continue
+        org = dom = None
+        for bi in sorted(f.normal_blocks()):
+            for s_ in f.blocks[bi]['s']:
+                rr = s_.get('r', {})
+                if rr.get('rv') != 'bin' or rr['op'] not in ('SubWithOverflow', 'Sub'):
+                    continue
+                pa, pb = op_place(rr['a']), op_place(rr['b'])
+                if pa is None or pb is None or c.tstr(pa.get('t', f.local_ty(pa['l']))) != 'usize':
+                    continue
+                if org is None:
+                    org = origins(f)
+                    dom = f.dominators()
+                oa, ob = org.get(pa['l'], set()), org.get(pb['l'], set())
+
+                def lenlike(qs):
+                    return bool(qs) and all(q[0][0] == 'call' and strip_generics(q[0][2]).endswith('::len') for q in qs)
+                if not (lenlike(oa) and lenlike(ob)) or oa == ob:
+                    continue
+                n += 1
+                guarded = False
+                for b in f.normal_blocks():
+                    tt = f.blocks[b]['t']
+                    if tt['t'] != 'switch' or b not in dom.get(bi, ()):
+                        continue
+                    for s2 in f.blocks[b]['s']:
+                        r2 = s2.get('r', {})
+                        if r2.get('rv') == 'bin' and r2['op'] in ('Lt', 'Le', 'Gt', 'Ge'):
+                            sides = [org.get((op_place(o) or {}).get('l'), set()) for o in (r2['a'], r2['b'])]
+                            if (sides[0] == oa and sides[1] == ob) or (sides[0] == ob and sides[1] == oa):
+                                guarded = True
+                r.check(guarded, '%s / difference of two lengths' % p.replace('yarel::', ''), 'two independently chosen lengths are subtracted without having been compared: when the second is '
+                        'larger the checked build panics and the optimised build wraps to a count near usize::MAX', f.loc(s_.get('sp')))
+    r.note('differences of two program-chosen lengths on this tree: %d' % n)
+    r.ok('census of length differences: %d' % n)
